@@ -51,6 +51,19 @@ BEHAVIOURAL = {p for p, s in PROPS.items() if s.get('roots') == 'anchors'}
 
 def props_of(v):
     """properties a rule violation is evidence against"""
+    s = _props_of(v)
+    # C18: within their contract the unsafe entry points uphold every other guarantee, so every safety
+    # rule that fails inside one of them is (also) evidence against C18
+    if 'C18' in (v.get('root_props') or ()) and v['rule'] in UNSAFE_ROOT_RULES:
+        s = set(s) | {'C18'}
+    return s
+
+
+UNSAFE_ROOT_RULES = ('O1', 'O2', 'LEAK', 'DROPALL', 'HANDLE', 'HANDLE-DROP', 'INV', 'ESC-user', 'ESC-own', 'STRUCTINV',
+                     'MODEL', 'SHAPE', 'SPEC', 'APPEND-AFTER-MISS')
+
+
+def _props_of(v):
     if v.get('props'):
         return set(v['props'])
     r = v['rule']
